@@ -321,7 +321,51 @@ def _usage_cases(tier):
                     {"component": "M", "key": f"usage:{usage}/{K.kstr(kind)}/{aname}", "props": {"p": [K.kstr(kind), False], "q": ["int", True]}, "instances": insts}]}}
 
 
+def _discriminated_union_cases(tier):
+    """A union of two object schemas that give the SAME required property different kinds: an instance of the later member makes the
+    earlier member's decoder fail in whatever way that kind fails (wrong JSON type, bad format, unknown member ...)."""
+    kinds = ["str", "int", "num", "bool", "date", "datetime", "uuid", "enum_str", "enum_int", "model_ref", ["array", "int"], ["array", "date"]]
+    for k1, k2 in itertools.permutations(kinds, 2):
+        comps = {}
+        comps["First"] = {"type": "object", "required": ["id"], "properties": {"id": K.schema(k1, comps), "a": {"type": "string"}}}
+        comps["Second"] = {"type": "object", "required": ["id"], "properties": {"id": K.schema(k2, comps), "b": {"type": "integer"}}}
+        comps["M"] = {"type": "object", "properties": {"link": {"oneOf": [{"$ref": "#/components/schemas/First"}, {"$ref": "#/components/schemas/Second"}]},
+                                                       "links": {"type": "array", "items": {"anyOf": [{"$ref": "#/components/schemas/First"}, {"$ref": "#/components/schemas/Second"}]}}}}
+        pick = lambda k: next((v for _c, v in K.samples(k) if v not in ([], {}, "", 0)), K.samples(k)[0][1])  # noqa: E731  (a non-degenerate sample)
+        v1, v2 = pick(k1), pick(k2)
+        insts = [{"cls": "second", "value": {"link": {"id": copy.deepcopy(v2), "b": 1}, "links": []}},
+                 {"cls": "first", "value": {"link": {"id": copy.deepcopy(v1), "a": "x"}, "links": []}},
+                 {"cls": "both-in-array", "value": {"links": [{"id": copy.deepcopy(v2), "b": 2}, {"id": copy.deepcopy(v1), "a": "y"}, {"id": copy.deepcopy(v2)}]}}]
+        yield {"labels": [f"union-members-share-key", f"first={K.kstr(k1)}", f"second={K.kstr(k2)}"], "payload": {"doc": gen.base_doc(comps), "options": {}, "targets": [
+            {"component": "M", "key": f"shared-key-union/{K.kstr(k1)}|{K.kstr(k2)}", "instances": insts}]}}
+
+
+BUILTIN_NAMES = ["object", "type", "list", "dict", "str", "int", "float", "bool", "bytes", "id", "input", "format", "filter", "property", "len", "set", "tuple", "print"]
+
+
+def _builtin_name_cases(tier):
+    """Properties named like Python builtins that the generated code itself spells (annotations such as `data: object`, `list[...]`,
+    `dict[...]`), next to a union / array / model sibling declared before or after them."""
+    siblings = {"union": {"oneOf": [{"type": "integer"}, {"type": "string", "format": "date"}]}, "array-model": None, "nullable": {"type": ["string", "null"]}}
+    for name in BUILTIN_NAMES:
+        for sib, ssch in siblings.items():
+            for order in ("sibling-first", "sibling-last"):
+                for req in ([], [name], ["sib"]):
+                    comps = {}
+                    ssch_ = ssch if ssch is not None else {"type": "array", "items": K.schema("model_ref", comps)}
+                    props = {"sib": copy.deepcopy(ssch_), name: {"type": "integer"}} if order == "sibling-first" else {name: {"type": "integer"}, "sib": copy.deepcopy(ssch_)}
+                    comps["M"] = {"type": "object", "properties": props, **({"required": req} if req else {})}
+                    sval = {"union": "2020-01-02", "array-model": [{"z": 1}], "nullable": None}[sib]
+                    insts = [{"cls": "both", "value": {name: 5, "sib": copy.deepcopy(sval)}}, {"cls": "both+extra", "value": {name: 0, "sib": copy.deepcopy(sval), "extra_1": 1}}]
+                    if not req:
+                        insts.append({"cls": "none", "value": {}})
+                    yield {"labels": [f"builtin-name={name}", f"sibling={sib}", order, "req=" + ",".join(req)], "payload": {"doc": gen.base_doc(comps), "options": {}, "targets": [
+                        {"component": "M", "key": f"builtin-name/{sib}", "instances": insts}]}}
+
+
 def cases(tier):
+    yield from _discriminated_union_cases(tier)
+    yield from _builtin_name_cases(tier)
     yield from _usage_cases(tier)
     yield from _family_cases(tier)
     yield from _nested_union_cases(tier)
